@@ -31,7 +31,7 @@ Fixpoint print_atom (v : val) : text :=
 Fixpoint print_string_body (t : text) : text :=
   match t with
   | [] => []
-  | c :: r => if c =? c_dq then c_bs :: c_dq :: print_string_body r else c :: print_string_body r
+  | c :: r => if (c =? c_dq) || (c =? c_bs) then c_bs :: c :: print_string_body r else c :: print_string_body r
   end.
 Definition print_string (t : text) : text := c_dq :: print_string_body t ++ [c_dq].
 
